@@ -231,7 +231,14 @@ func (e *emitter) structSupport(d *def) {
 	e.f("// struct %s", n)
 	e.f("func C05Gen%s(r *rt.Rand) (v %s) {", n, n)
 	for _, f := range d.Fields {
-		e.f("v.%s = %s", f.Go, e.genExpr(f.T))
+		switch f.T.K {
+		case "any":
+			e.f("v.%s = spec.Value(rt.GenAny(r, 2).Raw)", f.Go)
+		case "anymsg":
+			e.f("v.%s = spec.OpenMessage(rt.GenDyn(r, 2).Raw)", f.Go)
+		default:
+			e.f("v.%s = %s", f.Go, e.genExpr(f.T))
+		}
 	}
 	e.f("return v")
 	e.f("}")
@@ -246,8 +253,10 @@ func (e *emitter) structSupport(d *def) {
 			e.f("if !rt.SameF64(%s, %s) { return false }", x, y)
 		case "struct":
 			e.f("if !%s(%s, %s) { return false }", e.ref(f.T.D, "C05Eq"), x, y)
-		case "bytes":
+		case "bytes", "any":
 			e.f("if !bytes.Equal(%s, %s) { return false }", x, y)
+		case "anymsg":
+			e.f("if !bytes.Equal(%s.Raw(), %s.Raw()) { return false }", x, y)
 		default:
 			e.f("if %s != %s { return false }", x, y)
 		}
@@ -265,6 +274,11 @@ func (e *emitter) structSupport(d *def) {
 			e.f("n, err = spec.EncodeInt32(b, int32(v.%s))", f.Go)
 		case "struct":
 			e.f("n, err = %s(b, v.%s)", e.ref(f.T.D, "C05DynEnc"), f.Go)
+		case "any":
+			// a value of any type is stored as it is
+			e.f("n, err = b.Write(v.%s)", f.Go)
+		case "anymsg":
+			e.f("n, err = b.Write(v.%s.Raw())", f.Go)
 		default:
 			e.f("n, err = spec.Encode%s(b, v.%s)", randMethod[f.T.K], f.Go)
 		}
@@ -295,6 +309,10 @@ func (e *emitter) structSupport(d *def) {
 			e.f("{ var x spec.String; x, n, err = spec.DecodeString(b[:off]); v.%s = x.Clone() }", f.Go)
 		case "bytes":
 			e.f("{ var x spec.Bytes; x, n, err = spec.DecodeBytes(b[:off]); v.%s = x.Clone() }", f.Go)
+		case "any":
+			e.f("v.%s, n, err = spec.ParseValue(b[:off])", f.Go)
+		case "anymsg":
+			e.f("v.%s, n, err = spec.ParseMessage(b[:off])", f.Go)
 		default:
 			e.f("v.%s, n, err = spec.Decode%s(b[:off])", f.Go, randMethod[f.T.K])
 		}
@@ -313,7 +331,7 @@ func (e *emitter) structTest(d *def) {
 	e.f("for it := 0; it < iters; it++ {")
 	e.f("p := fmt.Sprintf(\"%s#%%d\", it)", n)
 	e.f("v := C05Gen%s(r)", n)
-	e.f("if it == 0 { v = %s{} }", n)
+	e.f("if it == 0 { v = %s{}; p += \"(zero-value)\" }", n)
 	e.f("c.Mode = \"struct-mismatch\"")
 	e.f("buf := buffer.New()")
 	e.f("if it%%2 == 1 { buf.Write(r.Bytes()) }") // the encoding is appended to what the buffer holds
@@ -327,7 +345,8 @@ func (e *emitter) structTest(d *def) {
 	e.f("c.NoErr(p+\".encodeTo\", err)")
 	e.f("c.EqBytes(p+\".encodeTo\", buf1.Bytes(), b)")
 	e.f("got, size, err := Decode%s(b)", n)
-	e.f("c.NoErr(p+\".decode\", err)")
+	// (what was encoded cannot be decoded: the remaining comparisons of this value say nothing new)
+	e.f("if !c.NoErr(p+\".decode\", err) { continue }")
 	e.f("c.EqInt(p+\".decode.size\", size, len(b))")
 	e.f("c.EqStruct(p+\".decode\", C05Eq%s(got, v), got, v)", n)
 	e.f("got = Open%s(b)", n)
@@ -586,7 +605,11 @@ func (e *emitter) messageCheck(d *def) {
 				f.Go, fp, f.Go, f.Go, fp, f.Go)
 		default:
 			// an absent field reads as the zero value, which is what the expected value holds
-			e.cmp(el, fp, genGot(el, "m."+f.Go+"()"), "v.F"+f.Go, false)
+			want := "v.F" + f.Go
+			if f.Sab && el.K == "int64" {
+				want = "(" + want + "+1)"
+			}
+			e.cmp(el, fp, genGot(el, "m."+f.Go+"()"), want, false)
 		}
 	}
 	e.f("}")
@@ -617,7 +640,8 @@ func (e *emitter) messageDynCheck(d *def) {
 			e.f("}")
 		} else {
 			e.f("fv := m.Field(%d)", f.Tag)
-			e.f("c.EqBytes(%s+\".raw\", m.FieldRaw(%d), fv)", fp, f.Tag)
+			// FieldRaw is the message data up to the end of the field: the value is its suffix
+			e.f("c.Check(len(fv) > 0 && bytes.HasSuffix(m.FieldRaw(%d), fv), %s+\".raw\", \"FieldRaw does not end with the field value\")", f.Tag, fp)
 			e.dynValue(el, fp, "fv", "v.F"+f.Go)
 			// the typed accessor of the message for the same tag
 			switch el.K {
@@ -668,8 +692,15 @@ func (e *emitter) messageTest(d *def) {
 	e.f("C05Check%s(c, p+\"/open\", m2, v)", n)
 	e.f("c.EqBytes(p+\".open.raw\", Open%s(raw).Unwrap().Raw(), raw)", n)
 	e.f("c.EqBytes(p+\".new.raw\", New%s(spec.OpenMessage(raw)).Unwrap().Raw(), raw)", n)
-	e.f("c.EqBool(p+\".isEmpty\", m.IsEmpty(), len(raw) == 0)")
+	e.f("c.EqBool(p+\".isEmpty\", m.IsEmpty(), spec.OpenMessage(raw).Fields() == 0)")
 	e.f("C05Check%s(c, p+\"/clone\", m.Clone(), v)", n)
+	e.f("C05Check%s(c, p+\"/cloneToBuffer\", m.CloneToBuffer(buffer.New()), v)", n)
+	// Merge copies the fields a writer does not have yet: into an empty writer, all of them
+	e.f("w2 := New%sWriter()", n)
+	e.f("c.NoErr(p+\".merge\", w2.Merge(m))")
+	e.f("m4, err := w2.Build()")
+	e.f("c.NoErr(p+\".merge.build\", err)")
+	e.f("C05Check%s(c, p+\"/merge\", m4, v)", n)
 	e.f("}")
 	// dynamic reader on the same bytes
 	e.f("c.Mode = \"dynamic-read-mismatch\"")
@@ -700,7 +731,7 @@ func (e *emitter) messageTest(d *def) {
 
 // ---------------------------------------------------------------- files
 
-func (e *emitter) header(test bool) {
+func (e *emitter) header() {
 	e.f("// Code written by the verification harness (langgen, C05) from its own model of the schema.")
 	e.f("")
 	e.f("package %s", e.p.ID)
@@ -708,23 +739,21 @@ func (e *emitter) header(test bool) {
 	e.f("import (")
 	e.f("\"bytes\"")
 	e.f("\"fmt\"")
-	if test {
-		e.f("\"testing\"")
-	}
 	e.f("")
 	e.f("\"github.com/basecomplextech/baselibrary/bin\"")
 	e.f("\"github.com/basecomplextech/baselibrary/buffer\"")
+	e.f("\"github.com/basecomplextech/baselibrary/ref\"")
+	e.f("\"github.com/basecomplextech/baselibrary/status\"")
+	e.f("\"github.com/basecomplextech/spec/rpc\"")
 	e.f("\"github.com/basecomplextech/spec\"")
 	e.f("rt \"gen.test/c05rt\"")
-	if !test {
-		var ids []string
-		for id := range e.p.deps {
-			ids = append(ids, id)
-		}
-		sortStrings(ids)
-		for _, id := range ids {
-			e.f("p_%s %q", id, e.p.deps[id].GoPath)
-		}
+	var ids []string
+	for id := range e.p.deps {
+		ids = append(ids, id)
+	}
+	sortStrings(ids)
+	for _, id := range ids {
+		e.f("p_%s %q", id, e.p.deps[id].GoPath)
 	}
 	e.f(")")
 	e.f("")
@@ -735,6 +764,9 @@ func (e *emitter) header(test bool) {
 	e.f("_ buffer.Buffer")
 	e.f("_ spec.Type")
 	e.f("_ *rt.Rand")
+	e.f("_ ref.Ref")
+	e.f("_ status.Status")
+	e.f("_ rpc.Client")
 	e.f(")")
 	e.f("")
 }
@@ -748,39 +780,31 @@ func sortStrings(s []string) {
 }
 
 // emitPackage returns the support file and the test file of a package. name is "<bundle>/<pkg>".
-func emitPackage(p *pkg, name string, seed uint64, iters int) (support, test []byte, err error) {
+// The support file holds everything including the exported entry point C05Run; the test file is a
+// three-line TestC05 calling it, so that the package can be tested alone as well as from the batch
+// runner (emitRunner), which links all packages of a batch into one test binary.
+func emitPackage(p *pkg, name string, seed uint64, iters int, services bool) (support, test []byte, err error) {
 	e := &emitter{p: p}
-	e.header(false)
+	e.header()
 	for _, d := range p.Defs {
 		switch d.Kind {
 		case "enum":
 			e.enumSupport(d)
+			e.enumTest(d)
 		case "struct":
 			e.structSupport(d)
+			e.structTest(d)
 		case "msg":
 			e.messageSupport(d)
+			e.messageTest(d)
+		case "service", "subservice":
+			if services {
+				e.serviceSupport(d)
+			}
 		}
 	}
-	support, err = format.Source([]byte(e.sb.String()))
-	if err != nil {
-		return []byte(e.sb.String()), nil, fmt.Errorf("support file of %s: %w", name, err)
-	}
-
-	t := &emitter{p: p}
-	t.header(true)
-	for _, d := range p.Defs {
-		switch d.Kind {
-		case "enum":
-			t.enumTest(d)
-		case "struct":
-			t.structTest(d)
-		case "msg":
-			t.messageTest(d)
-		}
-	}
-	t.f("func TestC05(t *testing.T) {")
-	t.f("c := rt.NewCtx(%q)", name)
-	t.f("defer c.Finish()")
+	e.f("// C05Run runs the checks of every definition of the package.")
+	e.f("func C05Run(c *rt.Ctx) {")
 	for i, d := range p.Defs {
 		var fn string
 		switch d.Kind {
@@ -790,15 +814,45 @@ func emitPackage(p *pkg, name string, seed uint64, iters int) (support, test []b
 			fn = "c05Struct"
 		case "msg":
 			fn = "c05Message"
+		case "service":
+			if !services {
+				continue
+			}
+			e.f("c.Run(%q, func() { c05Service%s(c, rt.NewRand(%d), %d) })", d.Name, d.Name, seed+uint64(i)*0x9E3779B97F4A7C15, iters/4+1)
+			continue
 		default:
 			continue
 		}
-		t.f("c.Run(%q, func() { %s%s(c, rt.NewRand(%d), %d) })", d.Name, fn, d.Name, seed+uint64(i)*0x9E3779B97F4A7C15, iters)
+		e.f("c.Run(%q, func() { %s%s(c, rt.NewRand(%d), %d) })", d.Name, fn, d.Name, seed+uint64(i)*0x9E3779B97F4A7C15, iters)
 	}
-	t.f("}")
-	test, err = format.Source([]byte(t.sb.String()))
+	e.f("}")
+	support, err = format.Source([]byte(e.sb.String()))
 	if err != nil {
-		return support, []byte(t.sb.String()), fmt.Errorf("test file of %s: %w", name, err)
+		return []byte(e.sb.String()), nil, fmt.Errorf("support file of %s: %w", name, err)
 	}
-	return support, test, nil
+
+	var t strings.Builder
+	fmt.Fprintf(&t, "// Code written by the verification harness (langgen, C05).\n\npackage %s\n\n", p.ID)
+	fmt.Fprintf(&t, "import (\n\t\"testing\"\n\n\trt \"gen.test/c05rt\"\n)\n\n")
+	fmt.Fprintf(&t, "func TestC05(t *testing.T) {\n\tc := rt.NewCtx(%q)\n\tdefer c.Finish()\n\tC05Run(c)\n}\n", name)
+	return support, []byte(t.String()), nil
 }
+
+// emitRunner returns the test file of the batch runner package: one parallel subtest per package.
+func emitRunner(pkgname string, pkgs []runnerPkg) []byte {
+	var t strings.Builder
+	fmt.Fprintf(&t, "// Code written by the verification harness (langgen, C05).\n\npackage %s\n\n", pkgname)
+	fmt.Fprintf(&t, "import (\n\t\"testing\"\n\n\trt \"gen.test/c05rt\"\n")
+	for i, p := range pkgs {
+		fmt.Fprintf(&t, "\tq%d %q\n", i, p.GoPath)
+	}
+	fmt.Fprintf(&t, ")\n\nfunc TestC05(t *testing.T) {\n")
+	for i, p := range pkgs {
+		fmt.Fprintf(&t, "\tt.Run(%q, func(t *testing.T) {\n\t\tt.Parallel()\n\t\tc := rt.NewCtx(%q)\n\t\tdefer c.Finish()\n\t\tq%d.C05Run(c)\n\t})\n",
+			fmt.Sprintf("p%d", i), p.Name, i)
+	}
+	fmt.Fprintf(&t, "}\n")
+	return []byte(t.String())
+}
+
+type runnerPkg struct{ Name, GoPath string }
